@@ -36,8 +36,10 @@ def projects():
     out.append(("required-overlap", "net.naunet", _native_file(naming[:8] + [naming[11]]), "naunet", {"extra": "H,He,E,H,CO,Ne"}, ""))
     out.append(("minimal.kida", "minimal.kida", open(REPO + "/tests/data/minimal.kida").read(), "kida", {}, ""))
     out.append(("primordial", "primordial.krome", open(REPO + "/naunet/examples/primordial/primordial.krome").read(), "krome", {"elements": "e,H,D,He", "pseudo": "Photon", "cooling": "CIC_HI,RC_HII"}, ""))
-    ucl = "\n".join(["H,H,NAN,H2,NAN,NAN,NAN,1e-17,0.0,0.0,0,0", "HE,CRP,NAN,HE+,E-,NAN,NAN,0.5,0.0,0.0,10,41000", "MG,H+,NAN,MG+,H,NAN,NAN,1e-9,0.0,0.0,10,41000", "SI,CL+,NAN,SI+,CL,NAN,NAN,1e-9,0.0,0.0,10,41000", "CO,FREEZE,NAN,#CO,NAN,NAN,NAN,1.0,0.0,0.0,0.0,10000.0"]) + "\n"
-    out.append(("uclchem-upper", "net.ucl", ucl, "uclchem", {"elements": "E,H,HE,C,O,MG,SI,CL", "pseudo": "CR,CRP,PHOTON,CRPHOT", "replacement": "E:e,HE:He,MG:Mg,SI:Si,CL:Cl"}, "rr07"))
+    ucl = "\n".join(["H,H,NAN,H2,NAN,NAN,NAN,1e-17,0.0,0.0,0,0", "HE,CRP,NAN,HE+,E-,NAN,NAN,0.5,0.0,0.0,10,41000", "MG,H+,NAN,MG+,H,NAN,NAN,1e-9,0.0,0.0,10,41000", "SI,CL+,NAN,SI+,CL,NAN,NAN,1e-9,0.0,0.0,10,41000", "CO,FREEZE,NAN,#CO,NAN,NAN,NAN,1.0,0.0,0.0,0.0,10000.0",
+                     # one-letter elements whose name + neutral/charge suffix spells a two-letter element of the list (S+I = SI, N+I = NI)
+                     "S,H+,NAN,S+,H,NAN,NAN,1e-9,0.0,0.0,10,41000", "N,H+,NAN,N+,H,NAN,NAN,1e-9,0.0,0.0,10,41000", "NI,H+,NAN,NI+,H,NAN,NAN,1e-9,0.0,0.0,10,41000", "CS,HE+,NAN,C+,S,HE,NAN,1e-9,0.0,0.0,10,41000"]) + "\n"
+    out.append(("uclchem-upper", "net.ucl", ucl, "uclchem", {"elements": "E,H,HE,C,N,O,MG,SI,S,CL,NI", "pseudo": "CR,CRP,PHOTON,CRPHOT", "replacement": "E:e,HE:He,MG:Mg,SI:Si,CL:Cl,NI:Ni"}, "rr07"))
     return out
 
 
